@@ -1115,6 +1115,8 @@ class Engine:
             if isinstance(a, VObj):
                 return VBool(a.t == self.world.opaque_const("unprovided"))
             return VBool(False)
+        if isinstance(fn, (VNone, VInt, VBool, VStr, VFloat)):
+            self.throw("TypeError", node, origin="call-noncallable")       # 'NoneType' object is not callable
         raise Unsupported("call of %r" % (fn,))
 
     def ex_ListComp(self, node, frame):
